@@ -45,6 +45,8 @@ def run(tier, seed):
     # the range that was overwritten, with the bytes that were there before
     from props import _sim
     _sim.run_sim(r, "c02sim", seed, tier, ["linux", "macos"], ["dev", "release"] if tier == "thorough" else ["dev"], nshards=6, crosscheck=False)
+    # the REAL PatchGuard of common.rs on host memory, incl. guards without a trampoline (what the 32-bit ARM patcher creates)
+    _sim.run_sim(r, "c02guard", seed, tier, ["linux"], ["dev"], nshards=2, crosscheck=False)
     return r.finish({"scenario": "hist", "mon": "c02", "n": 40000 if tier == "quick" else 16 * 150000, "batch": 1})
 
 
